@@ -20,6 +20,7 @@ import (
 	"fmt"
 	"go/ast"
 	"go/token"
+	"sort"
 	"strconv"
 	"strings"
 )
@@ -112,7 +113,37 @@ func init() {
 		Site{Module: mod, Pkg: pkg, Func: "Future.WaitContext", Name: "waitContextArmBodies", Kind: Custom, Custom: watchArmBodies},
 		// Lazy
 		Site{Module: mod, Pkg: pkg, Func: "Lazy", Name: "lazyIsOnceValue", Kind: Custom, Custom: wholeBody("returnsync.OnceValue(f)")},
+		// method sets (audit C18 F8): the models speak about the methods that exist today; a new method with access to
+		// the private field (a `Watchable.Reset` storing nil, a second way to close `Future.c`) is outside them
+		Site{Module: mod, Pkg: pkg, Name: "mapMethods", Kind: Custom, Custom: methodsOf("Map")},
+		Site{Module: mod, Pkg: pkg, Name: "watchableMethods", Kind: Custom, Custom: methodsOf("Watchable")},
+		Site{Module: mod, Pkg: pkg, Name: "futureMethods", Kind: Custom, Custom: methodsOf("Future")},
 	)
+}
+
+// methodsOf: the names of all methods declared on type typ (pointer or value receiver, exported or not) in the files
+// of the package that the present toolchain builds, sorted.
+func methodsOf(typ string) func(c *Ctx, s *Site) (string, error) {
+	return func(c *Ctx, s *Site) (string, error) {
+		files, err := c.files(s.Pkg)
+		if err != nil {
+			return "", err
+		}
+		var names []string
+		for _, f := range files {
+			for _, d := range f.Decls {
+				if fd, ok := d.(*ast.FuncDecl); ok && recvName(fd) == typ {
+					names = append(names, fd.Name.Name)
+				}
+			}
+		}
+		sort.Strings(names)
+		var rows []string
+		for _, n := range names {
+			rows = append(rows, leanString(n))
+		}
+		return fmt.Sprintf("/-- all methods declared on `%s` (any receiver kind), sorted -/\ndef %s : List String := [%s]\n", typ, s.Name, strings.Join(rows, ", ")), nil
+	}
 }
 
 // mapTexts: the (space-free) statement texts of one typed-map method that mapBody recognises.
